@@ -5,6 +5,28 @@ ROOT = os.path.dirname(os.path.dirname(os.path.abspath(__file__)))
 sys.path.insert(0, ROOT)
 sys.dont_write_bytecode = True
 props = [json.loads(l) for l in open(os.path.join(ROOT, "properties.jsonl"))]
+TECHNIQUE = {
+ "C01": "static: AST table extraction + sibling cross-check (writer vs reader vs RFC 8618 tables), inverse-mapping check of add_*/read_generic_*, interval analysis of the codec primitives",
+ "C02": "static: symbolic count identities over guard atoms (emission grammar of every serialiser), callee summaries at use sites, guard/ordering typestate of CdnsExporter",
+ "C03": "static: decoder-window typestate, guard dominance of subscripts and cursor moves, taint-to-allocation, call-graph SCCs, interval analysis, exception-discipline rules",
+ "C04": "static: control dependence (guard dominance) of hint-bit tests over member assignments and block-table insertions",
+ "C05": "static: Fresh/Stale typestate on the decoder window, abstract interpretation of the refill (m_p ? m_end), handler search over the read call graph",
+ "C06": "static: interval abstract interpretation of write_int, flush-threshold vs argument-range comparison (incl. value-dependent thresholds tabulated over boundary points), structural buffer discipline",
+ "C07": "static: dispatch exhaustiveness, caller/callee belief agreement on the stop code, finite-domain tabulation (additional information 0..31) by constant evaluation, interval analysis",
+ "C08": "static: sibling cross-check of all map/array readers against one consumption discipline on the structured CFG",
+ "C09": "static: writer/reader table agreement + RFC 8618 tables + reset-state dataflow + width rule",
+ "C10": "static: additive-flow dataflow of returned byte counts, primitive return/stored-bytes agreement, who-may-call",
+ "C11": "static: type/record facts (unique object representations, layout), hash-vs-equality member sets, structural rules on BlockTable",
+ "C12": "static: structural rules and guard normal forms over the buffering functions",
+ "C13": "static: must-precede / who-may-call ordering over the rotate path (incl. explicitly instantiated templates)",
+ "C14": "static: loop/ordering structure of the compressed writers, parameter dependence of stack array bounds",
+ "C15": "static: ordering invariant (must-precede) + destruction order derived from record facts and destructor bodies",
+ "C16": "static: error-discipline rules over the call graph from rotate_output (swallowing handlers, unchecked OS/stream results, reachability of the delegate on exceptional exits)",
+ "C17": "static: interval analysis, finite order-abstraction table of the comparison operators, must-precede rules",
+ "C18": "static: guard dominance of associative operator[] reads, ordering and per-iteration try isolation in the tool mains",
+ "C19": "static: ownership/borrowing rule over special-member facts, member completeness of copy operations",
+ "C20": "static: effect analysis (static-storage declarations, external-callee allow/deny list, pointer-origin rule)",
+}
 NOT_APPLICABLE = {}
 UNDER_CONSTRUCTION = "check not built yet in this session (planned, see DESIGN.md section 5); not claimed until its rules run clean on the unchanged tree"
 checks = []
@@ -23,9 +45,9 @@ for p in props:
             "replay_cmd_template": "./check %s --replay {path}" % pid,
             "engine": "cdnsverif",
             "level_claimed": {"category": M.get("level", "other"), "text": M["explanation"], "design_ref": "DESIGN.md section 5, " + pid},
-            "level_note": "Trusted base: " + "; ".join(M.get("trusted_base", [])) + ". Assumes: " + "; ".join(M.get("assumptions", [])) +
+            "level_note": "Trusted base: " + "; ".join(M.get("trusted_base", [])) + ". Assumes: " + ("; ".join(M.get("assumptions", [])) or "nothing beyond the trusted base") +
                           ". Decides the structural / necessary-condition clauses named in DESIGN.md, not the run-time residue listed there under 'Not decided'.",
-            "technique": M.get("technique", "static analysis: custom libTooling AST fact extractor + repository-specific rule engine (guards, dataflow, typestate, table agreement)"),
+            "technique": TECHNIQUE.get(pid, "static analysis over the clang AST") + " (custom libTooling extractor + rule engine)",
         })
     else:
         na.append({"property_id": pid, "reason": NOT_APPLICABLE.get(pid, UNDER_CONSTRUCTION)})
